@@ -137,9 +137,12 @@ func (in *Interp) pbScalar(kind string, t types.Type, raw *Term) Value {
 
 // pbUnmarshal fills the message struct cell from wire bytes.
 func (in *Interp) pbUnmarshal(b []*Term, cell *Cell, st *types.Struct) {
-	// reset
-	for i, sc := range cell.sub {
-		in.store(sc, in.zero(st.Field(i).Type()))
+	// reset (unless merging: UnmarshalOptions{Merge: true} keeps what the message holds,
+	// scalars are overwritten, repeated fields appended)
+	if !in.pbMerge {
+		for i, sc := range cell.sub {
+			in.store(sc, in.zero(st.Field(i).Type()))
+		}
 	}
 	fields := pbFields(st)
 	seen := map[int]bool{}
@@ -308,9 +311,9 @@ func (in *Interp) pbUnmarshalMerge(b []*Term, cell *Cell, st *types.Struct, fres
 }
 
 func init() {
-	intrinsics["google.golang.org/protobuf/proto.Unmarshal"] = func(in *Interp, c *callCtx) (ret Value) {
-		buf := c.args[0].(SliceV)
-		msg := c.args[1].(Iface)
+	pbEntry := func(in *Interp, c *callCtx, bufArg, msgArg Value, merge bool) (ret Value) {
+		buf := bufArg.(SliceV)
+		msg := msgArg.(Iface)
 		if msg.t == nil {
 			return in.mkError("proto: nil message")
 		}
@@ -325,6 +328,7 @@ func init() {
 		p := msg.v.(Ptr)
 		b := in.sliceBytes(buf)
 		defer func() {
+			in.pbMerge = false
 			if r := recover(); r != nil {
 				if e, ok := r.(pbErr); ok {
 					ret = in.mkError("proto: cannot parse invalid wire-format data: " + e.msg)
@@ -333,7 +337,29 @@ func init() {
 				panic(r)
 			}
 		}()
+		in.pbMerge = merge
 		in.pbUnmarshal(b, p.c, st)
 		return Iface{}
+	}
+	intrinsics["google.golang.org/protobuf/proto.Unmarshal"] = func(in *Interp, c *callCtx) Value {
+		return pbEntry(in, c, c.args[0], c.args[1], false)
+	}
+	// proto.UnmarshalOptions{...}.Unmarshal: only the Merge option changes what is modelled
+	intrinsics["(google.golang.org/protobuf/proto.UnmarshalOptions).Unmarshal"] = func(in *Interp, c *callCtx) Value {
+		merge := false
+		if ov, ok := c.args[0].(StructV); ok {
+			if st, ok := c.fn.Signature.Recv().Type().Underlying().(*types.Struct); ok {
+				for i := 0; i < st.NumFields(); i++ {
+					if st.Field(i).Name() == "Merge" {
+						if t, ok := ov.f[i].(*Term); ok && t.IsConst() {
+							merge = t.BoolVal()
+						} else {
+							in.unsupported("proto.UnmarshalOptions with a symbolic Merge option")
+						}
+					}
+				}
+			}
+		}
+		return pbEntry(in, c, c.args[1], c.args[2], merge)
 	}
 }
